@@ -275,10 +275,16 @@ func (s *SwapStateMachine) exponentialBackoffAndJitter() {
 
 // Recover tries to continue from the current state, by doing the associated Action
 func (s *SwapStateMachine) Recover() (bool, error) {
+	// The swap is already published in the active swap map: messages, watcher
+	// callbacks and timers may send events concurrently. Hold the mutex while
+	// the recovered action runs; it is released before SendEvent is called.
+	s.mutex.Lock()
 	log.Infof("[Swap:%s]: Recovering from state %s", s.SwapId.String(), s.Current)
 	state, ok := s.States[s.Current]
 	if !ok {
-		return false, fmt.Errorf("unknown state: %s for swap %s", s.Current, s.SwapId.String())
+		err := fmt.Errorf("unknown state: %s for swap %s", s.Current, s.SwapId.String())
+		s.mutex.Unlock()
+		return false, err
 	}
 
 	if s.Current == Default {
@@ -290,21 +296,26 @@ func (s *SwapStateMachine) Recover() (bool, error) {
 		s.Previous = s.Current
 		s.setState(State_SwapCanceled)
 		s.Data.SetState(State_SwapCanceled)
-		if err := s.swapServices.swapStore.UpdateData(s); err != nil {
+		err := s.swapServices.swapStore.UpdateData(s)
+		s.mutex.Unlock()
+		if err != nil {
 			return false, err
 		}
 		return true, nil
 	}
 	if !ok || state.Action == nil {
 		// configuration error
+		s.mutex.Unlock()
 		return false, ErrFsmConfig
 	}
 	if state.FailOnrecover {
+		s.mutex.Unlock()
 		return s.SendEvent(Event_ActionFailed, nil)
 	}
 
 	nextEvent := state.Action.Execute(s.swapServices, s.Data)
 	err := s.swapServices.swapStore.UpdateData(s)
+	s.mutex.Unlock()
 	if err != nil {
 		return false, err
 	}
